@@ -49,7 +49,8 @@ def make_range(text: str | None, lo: int, hi: int) -> Any:
     return CodeRange(start=CodePoint(*point_of(t, lo)), end=CodePoint(*point_of(t, hi)))
 
 
-def build_origin(spec: list, sources: list[Any]) -> Any:
+def build_origin(spec: list, sources: list[Any], fresh: bool = False) -> Any:
+    """`fresh`: every simple origin gets its own (equal but distinct) source objects."""
     from pyoak.origin import (
         NO_ORIGIN,
         CodeOrigin,
@@ -60,6 +61,8 @@ def build_origin(spec: list, sources: list[Any]) -> Any:
     )
 
     kind = spec[0]
+    if fresh and kind != "multi":
+        sources = make_sources()
     if kind == "no":
         return NO_ORIGIN
     if kind == "code":
@@ -71,7 +74,7 @@ def build_origin(spec: list, sources: list[Any]) -> Any:
         return XMLFileOrigin(source=sources[spec[1]], position=XMLPath(spec[2]))
     if kind == "multi":
         # built with a list exactly as merge_origins does
-        return MultiOrigin(origins=[build_origin(m, sources) for m in spec[1]])
+        return MultiOrigin(origins=[build_origin(m, sources, fresh) for m in spec[1]])
     raise ValueError(f"bad origin spec {spec!r}")
 
 
